@@ -146,6 +146,13 @@ var Library = api.FunctionSymbols{
 		}
 		return a / b, nil
 	},
+	"sum": func(c *api.Context, xs ...int) (int, error) {
+		t := 0
+		for _, x := range xs {
+			t += x
+		}
+		return t, nil
+	},
 	"pair":   func(c *api.Context, a int, b int) (P, error) { return P{a, b}, nil },
 	"first":  func(c *api.Context, p P) (int, error) { return p.A, nil },
 	"second": func(c *api.Context, p P) (int, error) { return p.B, nil },
@@ -209,7 +216,10 @@ type closure struct {
 type native struct {
 	name  string
 	arity int
-	f     func(in *Interp, args []Value) (Value, error)
+	// variadic functions count their variadic parameter as one, but are
+	// called with however many arguments there are
+	variadic bool
+	f        func(in *Interp, args []Value) (Value, error)
 }
 
 // partial is a function applied to too few arguments: they are bound to its
@@ -264,6 +274,9 @@ func (in *Interp) Apply(f Value, args []Value) (Value, error) {
 	if !ok {
 		in.CalledNonFunction = true
 		return nil, fmt.Errorf("can't call a %T", f)
+	}
+	if nf, ok := f.(*native); ok && nf.variadic {
+		return nf.f(in, args)
 	}
 	switch {
 	case len(args) > n:
@@ -354,6 +367,17 @@ func init() {
 			}
 			return a[0] / a[1], nil
 		}),
+		{name: "sum", arity: 1, variadic: true, f: func(in *Interp, args []Value) (Value, error) {
+			xs, err := ints(in, args)
+			if err != nil {
+				return nil, err
+			}
+			t := 0
+			for _, x := range xs {
+				t += x
+			}
+			return t, nil
+		}},
 		intFn("pair", 2, func(a []int) (Value, error) { return P{a[0], a[1]}, nil }),
 		{name: "first", arity: 1, f: func(in *Interp, args []Value) (Value, error) {
 			if p, ok := args[0].(P); ok {
@@ -675,7 +699,7 @@ func (g Gen) Expr(t *rapid.T, scope []binding, want typ, depth int) E {
 		opts = append(opts, "var", "var", "var")
 	}
 	if depth > 0 {
-		opts = append(opts, "op", "op", "op", "neg", "pairpart", "apply", "apply2", "twice", "call-lam", "call-lam", "call-fn", "call-fn", "pipe", "pipe", "lam-fn-arg")
+		opts = append(opts, "op", "op", "op", "neg", "sum", "pairpart", "apply", "apply2", "twice", "call-lam", "call-lam", "call-fn", "call-fn", "pipe", "pipe", "lam-fn-arg")
 		if g.IllFormed {
 			opts = append(opts, "over", "nonfn")
 		}
@@ -687,6 +711,12 @@ func (g Gen) Expr(t *rapid.T, scope []binding, want typ, depth int) E {
 		return CallSym(rapid.SampledFrom([]string{"add", "sub", "sub", "mul", "div"}).Draw(t, "op"), g.Expr(t, scope, tInt, depth-1), g.Expr(t, scope, tInt, depth-1))
 	case "neg":
 		return CallSym("neg", g.Expr(t, scope, tInt, depth-1))
+	case "sum": // a variadic function, with any number of arguments
+		args := make([]E, rapid.IntRange(0, 3).Draw(t, "nsum"))
+		for i := range args {
+			args[i] = g.Expr(t, scope, tInt, depth-1)
+		}
+		return CallSym("sum", args...)
 	case "pairpart":
 		return CallSym(rapid.SampledFrom([]string{"first", "second"}).Draw(t, "part"), g.Expr(t, scope, tPair, depth-1))
 	case "apply":
